@@ -99,13 +99,14 @@ def run_text(ctx, family, text, max_batch):
 
 def run_mw(ctx, stack, table, doc_name):
     results = {}
-    for flavour in ('sync', 'async', 'async-suspending'):
+    for flavour in ('sync', 'async', 'async-suspending', 'async-sequential'):
         del c12.EVENTS[:]
         is_async = flavour != 'sync'
         tspec = c12.table_spec(table)
         mws = [c12.make_mw(k, i, flavour) for i, k in enumerate(stack)]
         handlers = {key: [c12.make_handler(key, j, a, flavour) for j, a in enumerate(actions)] for key, actions in tspec.items()}
-        w = world.World(is_async, None, middlewares=mws, error_handlers=handlers)
+        extra = {'concurrent_batch': False} if flavour == 'async-sequential' else {}
+        w = world.World(is_async, None, middlewares=mws, error_handlers=handlers, **extra)
         doc = c12.DOCS[doc_name]
         text = doc if isinstance(doc, str) else json.dumps(doc)
         o = serverside.observe(w, text, context=world.Context('c11'))
@@ -119,7 +120,7 @@ def run_mw(ctx, stack, table, doc_name):
             ctx.hit('middleware:failing-with-handlers')
     ctx.hit('pair:middleware')
     base = results['sync']
-    for other in ('async', 'async-suspending'):
+    for other in ('async', 'async-suspending', 'async-sequential'):
         cur = results[other]
         aspect = None
         if base[0] != cur[0]:
